@@ -65,6 +65,7 @@ func Utf8ToUcs2Pooled(in string) (s string) {
 		_ = octets.WriteByte(byte(n & 0x00FF))
 	}
 	s = octets.String()
+	poisonOnRelease(octets)
 	octets.Reset()
 	ucs2BytesBufferPool.Put(octets)
 	return s
